@@ -7,7 +7,7 @@ EXTENDS FloatSplit, Json, TLC
 CONSTANTS Stride, Seed
 
 ModeSeq == <<"Zero", "Away", "Up", "Down", "HalfEven", "HalfAway">>
-Salt == NAbs(sg) * 31 + (IF sg < 0 THEN 3 ELSE 0) + (ex + 40) * 7 + p * 11 + b * 23 + q * 5 + Seed
+Salt == NAbs(sg) * 31 + (IF sg < 0 THEN 3 ELSE 0) + (ex + 40) * 7 + p * 11 + b * 23 + q * 5 + (IF unl THEN 13 ELSE 0) + Seed
 CaseMode == IF op \in ModeDependent THEN mode ELSE ModeSeq[1 + (Salt % 6)]
 Class ==
   IF ex >= 0 THEN "integer"
@@ -19,7 +19,7 @@ Sampled == dub = 0 /\ \/ Salt % (IF op = "with_precision" THEN 4 * Stride ELSE S
                       \/ (branch = "split-tiny" /\ op \in {"round", "to_int"} /\ Salt % 2 = 0)
                       \/ (Class = "half" /\ op # "with_precision" /\ Salt % 3 = 0)
 Case ==
-  [op |-> op, base |-> b, mode |-> CaseMode, q |-> q, a |-> [sig |-> sg, exp |-> ex, prec |-> p],
-   pred |-> [i |-> ri, fs |-> rfs, fe |-> rfe, flag |-> flag], branch |-> <<branch>>, class |-> Class, known |-> KnownF04]
+  [op |-> op, base |-> b, mode |-> CaseMode, q |-> q, a |-> [sig |-> sg, exp |-> ex, prec |-> CP],
+   pred |-> [i |-> ri, fs |-> rfs, fe |-> rfe, flag |-> flag], branch |-> <<branch>>, class |-> Class, known |-> KnownF04 \/ KnownF90]
 Emit == (pc = "done" /\ Sampled) => PrintT(<<"GEN", ToJson(Case)>>)
 =============================================================================
